@@ -240,3 +240,8 @@ fn validation_error(report: ValidationReport, recorder: PathRec) -> (r: Error) e
 fn cowstr_of_literal<'b>(s: &'static str) -> (r: CowStr<'b>)
     ensures r@ == s@, r.byte_len() == s.spec_bytes().len(),
 { unimplemented!() }
+/// `raw_tag.as_ref().map(|_| Cow::Owned(Tag { .. }))`: a marker tag for a replayed scalar that was tagged (F47)
+#[verifier::external_body]
+fn replay_tag_marker<'a, 'b>(raw_tag: &Option<CowStr<'a>>) -> (r: Option<CowTag<'b>>)
+    ensures (r is Some) == (*raw_tag is Some),
+{ unimplemented!() }
